@@ -11,6 +11,7 @@ import (
 	"testing"
 	"time"
 
+	"github.com/IrineSistiana/mosproxy/internal/upstream/transport"
 	"github.com/IrineSistiana/mosproxy/internal/zzverif/choice"
 	"github.com/IrineSistiana/mosproxy/internal/zzverif/env"
 	"github.com/IrineSistiana/mosproxy/internal/zzverif/refdns"
@@ -383,6 +384,182 @@ func c03Huge(c *choice.Ctx, rep *report.R) {
 	rep.State(fmt.Sprintf("huge|%s|%s", seam.name, obs))
 }
 
+// c03LongLived: a client that keeps one connection in use (a query every d < idle_timeout) for several idle timeouts: the idle
+// timer is about the time since the last activity, every query is answered and the server never closes the connection under it.
+func c03LongLived(c *choice.Ctx, rep *report.R) {
+	own := env.InstallOwn(0xA5, vRace)
+	defer env.UninstallOwn()
+	kind := []string{"tcp", "quic"}[c.Choose(2, "listener")]
+	step := []time.Duration{500 * time.Millisecond, 1500 * time.Millisecond, 1900 * time.Millisecond}[c.Choose(3, "interval")]
+	const idle = 2 * time.Second
+	n := int(4*idle/step) + 1
+	desc := fmt.Sprintf("listener=%s idle_timeout=%v one query every %v, %d queries on one connection", kind, idle, step, n)
+	fail := func(sig, msg string) {
+		rep.Violate("C03:"+kind+":long-lived:"+sig, msg+"\n  "+desc, map[string]any{"Choices": c.Choices(), "LongLived": true})
+	}
+	v, err := vNewRouter(c03Config("forward"), "u1")
+	if err != nil {
+		fail("router-start", err.Error())
+		return
+	}
+	defer v.Close()
+	v.ups["u1"].Auto = func(q *upQuery) *upResult { return &upResult{wire: env.Answer(q.Msg, 1, 60).Encode(false)} }
+	var send func(i int, m *refdns.Msg) // sends query i
+	var got func(i int) (*refdns.Msg, bool)
+	var closed func() bool
+	switch kind {
+	case "tcp":
+		sc := v.tcpClient(v.newTCPServer(0, idle), vClientV4, vLocalV4)
+		send = func(i int, m *refdns.Msg) { sc.SendMsg(m) }
+		got = func(i int) (*refdns.Msg, bool) {
+			rs := sc.Responses()
+			if i < len(rs) {
+				return rs[i], true
+			}
+			return nil, false
+		}
+		closed = func() bool { return sc.done || sc.impl.IsClosed() }
+	default:
+		qs := v.newQuicServer()
+		qs.idleTimeout = idle
+		conn := env.NewFakeQuicConn(vUDPAddr(vLocalV4), vUDPAddr(vClientV4))
+		connDone := false
+		go func() { // as quicServer.run does
+			qs.handleConn(conn)
+			conn.CloseWithError(0, "")
+			publish(func() { connDone = true })
+		}()
+		v.closers = append(v.closers, func() { conn.Die() })
+		var streams []*env.FakeStream
+		var peers []*env.End
+		send = func(i int, m *refdns.Msg) {
+			st, peer := env.NewFakeStream(i*4, vUDPAddr(vLocalV4), vUDPAddr(vClientV4))
+			streams, peers = append(streams, st), append(peers, peer)
+			w := m.Encode(false)
+			w[0], w[1] = 0, 0
+			st.E.Inject(refdns.Frame(w))
+			peer.CloseWrite()
+			conn.PushStream(st)
+		}
+		got = func(i int) (*refdns.Msg, bool) {
+			if i >= len(streams) {
+				return nil, false
+			}
+			fs, _ := env.SplitFrames(streams[i].E.Written())
+			if len(fs) == 0 {
+				return nil, false
+			}
+			m, _ := refdns.Decode(fs[0])
+			return m, true
+		}
+		closed = func() bool { return connDone || conn.IsClosed() }
+	}
+	for i := 0; i < n; i++ {
+		if closed() {
+			fail("closed-while-in-use", fmt.Sprintf("the server closed the connection %v after the previous query (query %d of %d not sent)", step, i, n))
+			return
+		}
+		q := refdns.Query(uint16(0x0300+i), refdns.N(fmt.Sprintf("ll%d", i), "example", "test"), 1, 1)
+		send(i, q)
+		wait()
+		hsleep(50 * time.Millisecond)
+		wait()
+		r, ok := got(i)
+		if !ok || r == nil {
+			fail("no-response", fmt.Sprintf("query %d (sent %v after the first, %v after the previous one) got no response", i, time.Duration(i)*step, step))
+			return
+		}
+		hsleep(step - 50*time.Millisecond)
+		wait()
+	}
+	v.Close()
+	wait()
+	for _, x := range own.Audit() {
+		fail("ownership", x)
+	}
+	rep.Eval(desc)
+	rep.State("longlived|" + desc)
+}
+
+// c03ManyQueries: more queries than a pipelined upstream connection has transaction ids (65536), one after the other through the
+// real router and the real pipelined transport over the scripted dialer: every single one gets its response - also the ones around
+// the point where the connection has used up its id space and the transport has to move on to a new connection.
+func c03ManyQueries(rep *report.R, udp bool, total int) {
+	kind := map[bool]string{false: "pipeline-tcp", true: "pipeline-udp"}[udp]
+	desc := fmt.Sprintf("%d sequential queries through a %s upstream", total, kind)
+	fail := func(sig, msg string) {
+		rep.Violate("C03:tcp:many-queries:"+sig, msg+"\n  "+desc, map[string]any{"Choices": []int{}, "Many": true})
+	}
+	v, err := vNewRouter(c03Config("forward"), "u1")
+	if err != nil {
+		fail("router-start", err.Error())
+		return
+	}
+	defer v.Close()
+	network := "tcp"
+	if udp {
+		network = "udp"
+	}
+	d := env.NewDialer(network)
+	tr := transport.NewPipelineTransport(transport.PipelineOpts{DialContext: d.Dial, IsTCP: !udp, IdleTimeout: time.Hour, MaxConcurrentQuery: 64})
+	v.r.upstreams["u1"].u = tr
+	v.closers = append(v.closers, func() {
+		for i := 0; i < d.NumConns(); i++ {
+			d.ImplEnd(i).Abort()
+		}
+	})
+	sc := v.tcpClient(v.newTCPServer(0, 100000*time.Second), vClientV4, vLocalV4)
+	// the scripted server answers the newest frame on whichever connection carries it
+	for i := 0; i < total; i++ {
+		q := refdns.Query(uint16(i), refdns.N(fmt.Sprintf("m%d", i), "many", "test"), 1, 1)
+		sc.impl.Inject(refdns.Frame(q.Encode(false)))
+		wait()
+		answered := false
+		for ci := d.NumConns() - 1; ci >= 0 && !answered; ci-- {
+			impl := d.ImplEnd(ci)
+			if impl.IsClosed() {
+				continue
+			}
+			last := impl.LastWrite()
+			if last == nil {
+				continue
+			}
+			w := last
+			if !udp {
+				if len(w) < 2 {
+					continue
+				}
+				w = w[2:]
+			}
+			if m, err := refdns.Decode(w); err == nil && len(m.Q) == 1 && m.Q[0].Name.Equal(q.Q[0].Name) {
+				r := env.Answer(m, 1, 60).Encode(false)
+				if !udp {
+					r = refdns.Frame(r)
+				}
+				impl.Inject(r)
+				answered = true
+			}
+		}
+		wait()
+		out := sc.impl.TakeWritten()
+		fs, _ := env.SplitFrames(out)
+		if len(fs) != 1 {
+			// give it the request deadline: a SERVFAIL is still a response
+			hsleep(7 * time.Second)
+			wait()
+			fs, _ = env.SplitFrames(append(out, sc.impl.TakeWritten()...))
+		}
+		if len(fs) != 1 {
+			fail("no-response", fmt.Sprintf("query number %d (of %d on this upstream; %d upstream connections so far, forwarded=%v) got %d responses within the request deadline", i+1, total, d.NumConns(), answered, len(fs)))
+			return
+		}
+		if i%4096 == 0 {
+			report.Progress()
+		}
+	}
+	rep.Eval(desc)
+}
+
 // client is the seam-independent view of one client transport.
 type c03Client interface {
 	send(m *refdns.Msg)
@@ -538,21 +715,37 @@ func TestVerifC03(t *testing.T) {
 	}
 	rep.Rule = fmt.Sprintf("E3: real router (run()) with scripted upstream in a synctest bubble; full product listener seam %v x %d queries (all QR x opcode{0,1,2,15} x RD x QDCOUNT{0,1,2}; flag/class/type/case/OPT/extra-record variants) x rule outcome %v x upstream outcome %v (only when forwarded); "+
 		"observed at t=0, 6s, 6.05s, 20s on the exact virtual clock; oracle: exactly one response, by 6s+50ms, id/opcode/RD copied, QR=RA=1, <=1 question equal to the first question, rcode per reference decision table; ownership audit; "+
-		"plus, on every seam, a query advertising 65535 octets whose upstream answer is composed (listener encoding measured by two probes) so that the complete response is exactly 65500..65535 octets, one by one: exactly one well-formed response within 6.05 s",
+		"plus, on every seam, a query advertising 65535 octets whose upstream answer is composed (listener encoding measured by two probes) so that the complete response is exactly 65500..65535 octets, one by one: exactly one well-formed response within 6.05 s; "+
+		"plus, on the tcp and quic connection handlers with idle_timeout 2 s, one connection kept in use for four idle timeouts with a query every {0.5, 1.5, 1.9} s: every query answered, connection never closed under the client; "+
+		"plus 65576 sequential queries through the real pipelined transport (more than one connection's id space): each gets its response",
 		seams, len(queries), c03Rules, c03Ups)
-	huge := false
+	huge, longLived, many := false, false, false
 	if rp := report.ReplayFile(); rp != nil {
-		var x struct{ Huge bool }
+		var x struct{ Huge, LongLived, Many bool }
 		rp.Decode(&x)
-		huge = x.Huge
+		huge, longLived, many = x.Huge, x.LongLived, x.Many
 	}
-	if !huge {
+	if !huge && !longLived && !many {
 		st := runExplore(t, rep, -1, func(c *choice.Ctx) { c03Scenario(c, rep, queries) })
 		rep.Count("executions", st.Executions)
 	}
 	if huge || report.ReplayFile() == nil {
 		st := runExplore(t, rep, -1, func(c *choice.Ctx) { c03Huge(c, rep) })
 		rep.Count("executions_huge", st.Executions)
+	}
+	if sh, _ := report.Shard(); (sh == 0 && report.ReplayFile() == nil) || many {
+		bubble(t, func() {
+			hmu.Lock()
+			defer hmu.Unlock()
+			c03ManyQueries(rep, false, 65536+40)
+			if report.Thorough() {
+				c03ManyQueries(rep, true, 65536+40)
+			}
+		})
+	}
+	if longLived || report.ReplayFile() == nil {
+		st := runExplore(t, rep, -1, func(c *choice.Ctx) { c03LongLived(c, rep) })
+		rep.Count("executions_long_lived", st.Executions)
 	}
 	rep.Sample(map[string]any{"seam": "tcp", "rule": "forward", "query": "qr=0 op=0 rd=1 qd=1", "upstream": "silence", "expect": "one SERVFAIL at exactly 6s"})
 }
